@@ -11,6 +11,7 @@
 # limitations under the License.
 
 import typing
+from collections.abc import MutableMapping
 from typing import Generator
 from typing import Iterable
 from typing import List
@@ -133,6 +134,9 @@ class DataFrame:
         return self._nbytes
 
     def append(self, entry):
+        if isinstance(entry, MutableMapping) and type(entry) is not dict:
+            # validate accepts any mutable mapping; the row factory only reads exact dicts
+            entry = dict(entry)
         if isinstance(self._schema, RelationSchema):
             self._schema.validate(entry)
         new_row = self._row_factory(entry)
